@@ -45,27 +45,35 @@ ASSUMPTIONS = [
     "snapshots are taken of a non-empty combined model only (the in-memory clone of an empty graph is undefined)",
     "source models carry no StructuralInfo of their own",
 ]
-BUDGET = {"quick": 1200, "thorough": 30000}
+BUDGET = {"quick": 800, "thorough": 20000}
 SIG_CONTRACTION = "C14/merge_nodes/edge-contraction-attribute"
 SIG_NO_OWN = "C14/merge/raised/adm-without-own-nodes"
-MIN_LABEL_FRACTION = {"models>=2": 0.5, "shared-nodes": 0.5, "hist-unmerge": 0.4, "hist-rollback": 0.15,
-                      "hist-snapshot": 0.3, "kind:partition-ok": 0.04, "kind:family": 0.4,
-                      "shared-delegated": 0.2}
+MIN_LABEL_FRACTION = {"models>=2": 0.5, "shared-nodes": 0.45, "hist-unmerge": 0.2, "hist-rollback": 0.07,
+                      "hist-snapshot": 0.15, "kind:partition-ok": 0.04, "kind:family": 0.4,
+                      "shared-delegated": 0.3, "models=4": 0.08}
 
-OPS = ["merge", "merge", "merge", "unmerge", "unmerge", "snapshot", "rollback"]
+OPS = ["merge", "merge", "merge", "unmerge", "unmerge", "snapshot", "snapshot", "rollback", "rollback"]
 SHIPPED = ["LBNL", "Network", "RENCI", "UKY"]
 
-_history = st.lists(st.tuples(st.sampled_from(OPS), st.integers(0, 5)).map(list), min_size=1, max_size=12)
+_op = st.tuples(st.sampled_from(OPS), st.integers(0, 5)).map(list)
+# 1-12 steps; the first one is a merge (anything else would be skipped on the empty combined model)
+
+
+
+@st.composite
+def _history(draw):
+    n = draw(st.sampled_from([0, 1, 2, 3, 4, 5, 6, 7, 8, 9, 10, 11, 5, 7, 9, 11]))
+    return [["merge", draw(st.integers(0, 5))]] + draw(st.lists(_op, min_size=n, max_size=n))
 
 
 @st.composite
 def _case(draw):
     kind = draw(st.sampled_from(["family", "family", "family", "partition"]))
     if kind == "family":
-        return {"kind": kind, "family": draw(S.adm_family()), "history": draw(_history)}
+        return {"kind": kind, "family": draw(S.adm_family()), "history": draw(_history())}
     arm = draw(S.substrate(multi_id=False, modes=("all-both", "all-both", "all-both", "mixed"),
                            max_workers=2, max_comps=2))
-    return {"kind": kind, "arm": arm, "history": draw(_history)}
+    return {"kind": kind, "arm": arm, "history": draw(_history())}
 
 
 def strategy(tier):
